@@ -44,8 +44,8 @@ Qed.
 
 Section Dce.
   Variables (w : world) (fuel : nat).
-  Notation exec := (exec false w fuel).
-  Notation exec_block := (exec_block false w fuel).
+  Notation exec := (exec Wrap w fuel).
+  Notation exec_block := (exec_block Wrap w fuel).
 
   Definition sim (s Sn Sb : list name) (r1 r2 : res) : Prop :=
     match r1 with
@@ -437,8 +437,8 @@ Section Dce.
     assert (Hstep : forall e1 e2 tr, Inv e1 e2 ->
       step_sim Inv (agree_on s S) (bind_e2 w lvs) (bind_e2 w lvs2) (exec_block ss e1 tr) (exec_block ss' e2 tr)).
     { intros a1 a2 t HI. specialize (HQ a1 a2 t HI).
-      pose proof (frame_block false w fuel ss a1 t) as Fr1.
-      pose proof (frame_block false w fuel ss' a2 t) as Fr2.
+      pose proof (frame_block Wrap w fuel ss a1 t) as Fr1.
+      pose proof (frame_block Wrap w fuel ss' a2 t) as Fr2.
       destruct (exec_block ss a1 t) as [a1' t'|v a1' t'|t'|t'| | |]; cbn [sim step_sim] in *; auto.
       - destruct HQ as [a2' [E Ha]]. exists a2'. split; auto. rewrite E in Fr2. cbn in Fr2.
         intros x Hx Hsx. unfold bind_e2. rewrite !lookup_bind.
@@ -488,7 +488,7 @@ End Dce.
 Definition same_unless_stuck (o' o : outcome) : Prop := match o with Stuck => True | _ => o' = o end.
 
 Theorem dce_preserves w f args fuel :
-  wf_func f = true -> same_unless_stuck (sem false w (dce f) args fuel) (sem false w f args fuel).
+  wf_func f = true -> same_unless_stuck (sem Wrap w (dce f) args fuel) (sem Wrap w f args fuel).
 Proof.
   unfold wf_func. intros H. apply andb_prop in H. destruct H as [H Hret]. apply andb_prop in H. destruct H as [Hnd Hsc].
   apply nodupb_NoDup in Hnd.
@@ -503,7 +503,7 @@ Proof.
       exfalso. eapply (NoDup_app_disj _ _ x Hnd); eauto. }
   specialize (HQ (f_body f) (f_params f) s0 Hsc Hpre (combine (f_params f) args) (combine (f_params f) args) []
                  ltac:(intros x _ _; reflexivity)).
-  destruct (exec_block false w fuel (f_body f) _ _) as [e1' t'|v e1' t'|t'|t'| | |]; cbn [sim same_unless_stuck] in *; auto.
+  destruct (exec_block Wrap w fuel (f_body f) _ _) as [e1' t'|v e1' t'|t'|t'| | |]; cbn [sim same_unless_stuck] in *; auto.
   - destruct HQ as [e2' [-> Ha]]. f_equal. symmetry. eapply agree_eval; eauto.
     intros x E. unfold s0. rewrite In_use_expr. auto.
   - now rewrite HQ.
@@ -517,4 +517,11 @@ Corollary dce_refines w f : wf_func f = true -> refines w (dce f) f.
 Proof.
   intros Hwf args fuel v tr H. apply strict_done_wrapping in H.
   pose proof (dce_preserves w f args fuel Hwf) as Hp. rewrite H in Hp. exact Hp.
+Qed.
+
+(* DCE after any refinement is still a refinement *)
+Lemma refines_then_dce w f f1 : refines w f1 f -> wf_func f1 = true -> refines w (dce f1) f.
+Proof.
+  intros H Hwf args fuel v tr Hs. specialize (H args fuel v tr Hs).
+  pose proof (dce_preserves w f1 args fuel Hwf) as Hp. rewrite H in Hp. exact Hp.
 Qed.
